@@ -121,7 +121,7 @@ func (x *Exec) invoke(fr *Frame, st *State, c *ssa.CallCommon, recv Value, args 
 				continue
 			}
 			if sel := x.prog.MethodSets.MethodSet(T).Lookup(c.Method.Pkg(), c.Method.Name()); sel != nil {
-				if fn := x.prog.MethodValue(sel); fn != nil && inModule(fn) && len(fn.Blocks) > 0 {
+				if fn := x.prog.MethodValue(sel); fn != nil && (inModule(fn) || x.inlineExt[fn.String()]) && len(fn.Blocks) > 0 {
 					cands = append(cands, id)
 				}
 			}
@@ -534,6 +534,20 @@ func (x *Exec) callContract(fr *Frame, st *State, fn *ssa.Function, fc *FuncCont
 	// the callee may have called whatever its static call graph reaches: those entries of the
 	// caller's ghost call log are stale (everything, if the callee makes dynamic calls)
 	may := x.mayCall(fn)
+	ownKey := contractKey(fn)
+	ownArgs, hadOwn := st.calls[ownKey]
+	ownCount, hadCount := st.ghost["ncalls:"+ownKey]
+	selfReach := may != nil && may[ownKey] // (with dynamic calls the callee is assumed not to re-enter itself)
+	defer func() {
+		if !selfReach {
+			if hadOwn {
+				st.calls[ownKey] = ownArgs
+			}
+			if hadCount {
+				st.ghost["ncalls:"+ownKey] = ownCount
+			}
+		}
+	}()
 	for _, k := range sortedKeys(st.calls) {
 		if may == nil || may[k] || may[strings.TrimSuffix(k, "#ret")] {
 			delete(st.calls, k)
@@ -566,6 +580,10 @@ func (x *Exec) callContract(fr *Frame, st *State, fn *ssa.Function, fc *FuncCont
 			scope.results["result"] = rv
 		}
 	}
+	if st.calls == nil {
+		st.calls = map[string][]Value{}
+	}
+	st.calls[contractKey(fn)+"#ret"] = rets
 	for _, en := range fc.Ensures {
 		// clauses about the callee's own ghost call log cannot be stated in the caller's scope: skipped
 		func() {
@@ -686,6 +704,18 @@ func (x *Exec) havocModifies(cfr *Frame, st *State, pre *State, target Expr) {
 		return
 	}
 	v := x.evalSpec(&specScope{x: x, fr: cfr, st: pre, old: pre}, target)
+	if c, ok := target.(*ECall); ok && c.Fun == "dyn" && len(c.Args) == 2 && len(v.L) > 0 && v.L[0] != nil {
+		// modifies dyn(x, "T"): only if x really holds a T; otherwise nothing (the havoc is redirected
+		// to a fresh, unreachable object)
+		iv := x.evalSpec(&specScope{x: x, fr: cfr, st: pre, old: pre}, c.Args[0])
+		if lit, ok := c.Args[1].(*ELit); ok {
+			if T := x.specType(&specScope{x: x, fr: cfr, st: pre, old: pre}, lit.Text); T != nil && len(iv.L) == 2 {
+				is := Eq(iv.L[0], IntLit(int64(x.c.typeTag(T))))
+				v.L = append([]*Term{}, v.L...)
+				v.L[0] = x.define(st, "modref", Ite(is, v.L[0], x.newRef(st, "nomod")))
+			}
+		}
+	}
 	x.havocReachable(st, v)
 }
 
